@@ -30,6 +30,17 @@ instance decSentinelsJustified (p : Pair) : Decidable (SentinelsJustified p) :=
     (fun c q => (∀ s ∈ p.cxxSentinels, ∃ nv ∈ c, nv.1 = s ∧ ∃ nv' ∈ wire c p.cxxSentinels, nv'.2 = nv.2) ∧
       (∀ s ∈ p.pySentinels, ∃ nv ∈ q, nv.1 = s ∧ ∀ nv' ∈ c, nv'.2 < nv.2))
 
+instance decCoversByValue (c v : Members) : Decidable (CoversByValue c v) := by
+  unfold CoversByValue; infer_instance
+
+instance decViewRel : ∀ (b : Bool) (c q : Members), Decidable (ViewRel b c q)
+  | false, c, q => decSameMembers c q
+  | true, c, q => decCoversByValue c q
+
+instance decViewAgrees (b : Bool) (view : List (Nat × Members)) (p : Pair) : Decidable (ViewAgrees b view p) :=
+  decExSome (lookup p.cxx cxxAll) (lookup p.py view)
+    (fun c q => ViewRel b (wire c p.cxxSentinels) (wire q p.pySentinels))
+
 instance decTheOnly (l : List Decl) (Q : Decl → Prop) [DecidablePred Q] : Decidable (TheOnly l Q) :=
   match l with
   | [k] =>
